@@ -13,9 +13,9 @@ import (
 
 func init() {
 	register("C06", &propSpec{
-		level: "other",
+		level:       "other",
 		explanation: "Layout agreement of the two codecs decided by extracting, from SSA, the ordered sequence of wire primitives (with the field each carries) of every marshal and unmarshal function and comparing: marshal = unmarshal per packet type in package sftp, both = the SFTP v3 draft / OpenSSH PROTOCOL layout, = the filexfer sibling's marshal and unmarshal sequences; attribute blocks by flag agree in the five functions that implement them and with the draft, and the two packages' flag and type-code constants are numerically equal; the length prefix is len(header)+len(payload)-4 with header written first; integer primitives are big-endian with matching shifts; decode cursors are threaded (no rest buffer is dropped while decoding continues); the reflect/binary-encoded structs have the wire's field order and widths. Value-level round trips beyond these shapes are not decided.",
-		run: runC06,
+		run:         runC06,
 		assumptions: []string{"encoding/binary.BigEndian and binary.Read/Write are correct", "strings are byte strings (no UTF-8 processing)"},
 	})
 }
@@ -544,157 +544,7 @@ func runC06(c *Ctx) {
 	c.floor("R1", 110)
 
 	// ---------- R2 attribute block by flag ----------
-	{
-		type ladder map[int64]string
-		extract := func(fn *ssa.Function) (ladder, []int64) {
-			lad := ladder{}
-			var order []int64
-			if fn == nil {
-				return lad, nil
-			}
-			for _, b := range fn.Blocks {
-				iff, ok := b.Instrs[len(b.Instrs)-1].(*ssa.If)
-				if !ok {
-					continue
-				}
-				cmp, ok := iff.Cond.(*ssa.BinOp)
-				if !ok || (cmp.Op != token.NEQ && cmp.Op != token.EQL) {
-					continue
-				}
-				and, ok := cmp.X.(*ssa.BinOp)
-				if !ok || and.Op != token.AND {
-					continue
-				}
-				k, ok := constInt(and.Y)
-				if !ok {
-					continue
-				}
-				k = k & 0xFFFFFFFF
-				y, _ := constInt(cmp.Y)
-				y = y & 0xFFFFFFFF
-				var body *ssa.BasicBlock
-				switch {
-				case cmp.Op == token.NEQ && y == 0:
-					body = b.Succs[0]
-				case cmp.Op == token.EQL && y == k:
-					body = b.Succs[0]
-				case cmp.Op == token.EQL && y == 0:
-					body = b.Succs[1]
-				default:
-					continue
-				}
-				// tokens in the blocks dominated by body and not dominated by a later flag test's body
-				region := regionOf(fn, body)
-				var toks []wtok
-				sub := &ssa.Function{}
-				_ = sub
-				for _, rb := range fn.Blocks {
-					if !region[rb] {
-						continue
-					}
-					for _, t := range seqOfBlock(p, fn, rb) {
-						toks = append(toks, t)
-					}
-				}
-				if _, dup := lad[k]; !dup {
-					order = append(order, k)
-				}
-				lad[k] = toksString(toks, true)
-			}
-			return lad, order
-		}
-		want := map[int64]string{
-			0x1:        "u64:Size",
-			0x2:        "u32:UID u32:GID",
-			0x4:        "u32:Mode",
-			0x8:        "u32:Atime u32:Mtime",
-			0x80000000: "u32:count str:type* str:data*",
-		}
-		norm := func(s string) string {
-			r := strings.NewReplacer("Permissions", "Mode", "ATime", "Atime", "MTime", "Mtime", "len(Extended)", "count", "len(ExtendedAttributes)", "count", "var:count", "count",
-				"ExtType", "type", "ExtData", "data", "var:typ", "type", "var:data", "data")
-			s = r.Replace(s)
-			// sibling spellings of the extended pair
-			s = strings.ReplaceAll(s, "str*", "str:?*")
-			s = strings.ReplaceAll(s, "str:?*", "str*")
-			return s
-		}
-		wantOrder := []int64{0x1, 0x2, 0x4, 0x8, 0x80000000}
-		fns := []struct {
-			name string
-			fn   *ssa.Function
-		}{
-			{"marshalFileStat", p.Func("marshalFileStat")},
-			{"unmarshalFileStat", p.Func("unmarshalFileStat")},
-			{"sshfx.Attributes.MarshalInto", p.FuncIn(p.Sshfx, "(*Attributes).MarshalInto")},
-			{"sshfx.Attributes.XXX_UnmarshalByFlags", p.FuncIn(p.Sshfx, "(*Attributes).XXX_UnmarshalByFlags")},
-		}
-		for _, f := range fns {
-			if f.fn == nil {
-				c.missing("R2", f.name)
-				continue
-			}
-			c.looked(f.name)
-			lad, order := extract(f.fn)
-			for k, w := range want {
-				got := norm(lad[k])
-				okL := got == w
-				if k == 0x80000000 {
-					// count then pairs of strings in a loop; names of the pair differ between the codecs
-					parts := strings.Fields(got)
-					okL = len(parts) >= 3 && strings.HasPrefix(parts[0], "u32") && strings.HasPrefix(parts[1], "str") && strings.HasSuffix(parts[1], "*") && strings.HasPrefix(parts[2], "str") && strings.HasSuffix(parts[2], "*")
-				}
-				c.check(okL, "R2", fmt.Sprintf("%s flag %#x", f.name, k), p.Pos(f.fn.Pos()), got, fmt.Sprintf("under attribute flag %#x %s handles [%s], the draft says [%s]", k, f.name, got, w))
-			}
-			okOrder := len(order) == len(wantOrder)
-			for i := range order {
-				if i < len(wantOrder) && order[i] != wantOrder[i] {
-					okOrder = false
-				}
-			}
-			c.check(okOrder, "R2", f.name+" flag order", p.Pos(f.fn.Pos()), "SIZE, UIDGID, PERMISSIONS, ACMODTIME, EXTENDED", fmt.Sprintf("%s handles the attribute flags in the order %#x", f.name, order))
-		}
-		// flag constants equal in both packages
-		for _, pr := range [][2]string{{"sshFileXferAttrSize", "AttrSize"}, {"sshFileXferAttrUIDGID", "AttrUIDGID"}, {"sshFileXferAttrPermissions", "AttrPermissions"}, {"sshFileXferAttrACmodTime", "AttrACModTime"}, {"sshFileXferAttrExtended", "AttrExtended"}} {
-			a, _ := p.Sftp.Pkg.Scope().Lookup(pr[0]).(*types.Const)
-			b, _ := p.Sshfx.Pkg.Scope().Lookup(pr[1]).(*types.Const)
-			same := a != nil && b != nil && constant.Compare(constant.ToInt(a.Val()), token.EQL, constant.ToInt(b.Val()))
-			c.check(same, "R2", "flag constant "+pr[0], "attrs.go", "equal in both codecs", pr[0]+" and sshfx."+pr[1]+" differ")
-		}
-		// Attributes.Len agrees with MarshalInto on sizes
-		if ln := p.FuncIn(p.Sshfx, "(*Attributes).Len"); ln != nil {
-			sizes := map[int64]int64{}
-			for _, b := range ln.Blocks {
-				iff, ok := b.Instrs[len(b.Instrs)-1].(*ssa.If)
-				if !ok {
-					continue
-				}
-				cmp, ok := iff.Cond.(*ssa.BinOp)
-				if !ok {
-					continue
-				}
-				and, ok := cmp.X.(*ssa.BinOp)
-				if !ok || and.Op != token.AND {
-					continue
-				}
-				k, ok := constInt(and.Y)
-				if !ok {
-					continue
-				}
-				for _, in := range b.Succs[0].Instrs {
-					if bo, ok := in.(*ssa.BinOp); ok && bo.Op == token.ADD {
-						if v, ok := constInt(bo.Y); ok {
-							sizes[k&0xFFFFFFFF] = v
-						}
-					}
-				}
-			}
-			wantSz := map[int64]int64{1: 8, 2: 8, 4: 4, 8: 8, 0x80000000: 4}
-			for k, w := range wantSz {
-				c.check(sizes[k] == w, "R2", fmt.Sprintf("Attributes.Len flag %#x", k), p.Pos(ln.Pos()), fmt.Sprintf("%d bytes", sizes[k]), fmt.Sprintf("Attributes.Len counts %d bytes for flag %#x, the encoding uses %d", sizes[k], k, w))
-			}
-		}
-	}
+	checkAttrLadders(c, "R2", false)
 
 	// ---------- R3 length prefix ----------
 	if sp := p.Func("sendPacket"); sp == nil {
@@ -1163,6 +1013,183 @@ func checkBigEndian(c *Ctx) {
 				}
 			})
 			c.check(be, "R4", "sshfx "+name+" byte order", p.Pos(f.Pos()), "binary.BigEndian", name+" does not decode big-endian")
+		}
+	}
+}
+
+// checkAttrLadders: the attribute block is a ladder of flag tests; under each flag the codec handles exactly the
+// draft's fields, in the draft's order, and the flag alone decides whether the block is present.
+func checkAttrLadders(c *Ctx, rule string, sftpOnly bool) {
+	p := c.P
+	type ladder map[int64]string
+	var guarded map[int64]bool
+	extract := func(fn *ssa.Function) (ladder, []int64) {
+		guarded = map[int64]bool{}
+		lad := ladder{}
+		var order []int64
+		if fn == nil {
+			return lad, nil
+		}
+		for _, b := range fn.Blocks {
+			iff, ok := b.Instrs[len(b.Instrs)-1].(*ssa.If)
+			if !ok {
+				continue
+			}
+			cmp, ok := iff.Cond.(*ssa.BinOp)
+			if !ok || (cmp.Op != token.NEQ && cmp.Op != token.EQL) {
+				continue
+			}
+			and, ok := cmp.X.(*ssa.BinOp)
+			if !ok || and.Op != token.AND {
+				continue
+			}
+			k, ok := constInt(and.Y)
+			if !ok {
+				continue
+			}
+			k = k & 0xFFFFFFFF
+			y, _ := constInt(cmp.Y)
+			y = y & 0xFFFFFFFF
+			var body *ssa.BasicBlock
+			switch {
+			case cmp.Op == token.NEQ && y == 0:
+				body = b.Succs[0]
+			case cmp.Op == token.EQL && y == k:
+				body = b.Succs[0]
+			case cmp.Op == token.EQL && y == 0:
+				body = b.Succs[1]
+			default:
+				continue
+			}
+			// tokens in the blocks dominated by body and not dominated by a later flag test's body
+			region := regionOf(fn, body)
+			var toks []wtok
+			sub := &ssa.Function{}
+			_ = sub
+			for _, rb := range fn.Blocks {
+				if !region[rb] {
+					continue
+				}
+				for _, t := range seqOfBlock(p, fn, rb) {
+					toks = append(toks, t)
+				}
+			}
+			if _, dup := lad[k]; !dup {
+				order = append(order, k)
+			}
+			lad[k] = toksString(toks, true)
+			// the section must start unconditionally once the flag test has passed: a further condition between
+			// the flag test and the first field (say, "and the list is not empty") makes the block's presence
+			// depend on something the peer cannot see in the flags word
+			for cur, steps := body, 0; cur != nil && steps < 8; steps++ {
+				if len(seqOfBlock(p, fn, cur)) > 0 {
+					break
+				}
+				if _, isIf := cur.Instrs[len(cur.Instrs)-1].(*ssa.If); isIf || len(cur.Succs) != 1 {
+					guarded[k] = true
+					break
+				}
+				cur = cur.Succs[0]
+			}
+		}
+		return lad, order
+	}
+	want := map[int64]string{
+		0x1:        "u64:Size",
+		0x2:        "u32:UID u32:GID",
+		0x4:        "u32:Mode",
+		0x8:        "u32:Atime u32:Mtime",
+		0x80000000: "u32:count str:type* str:data*",
+	}
+	norm := func(s string) string {
+		r := strings.NewReplacer("Permissions", "Mode", "ATime", "Atime", "MTime", "Mtime", "len(Extended)", "count", "len(ExtendedAttributes)", "count", "var:count", "count",
+			"ExtType", "type", "ExtData", "data", "var:typ", "type", "var:data", "data")
+		s = r.Replace(s)
+		// sibling spellings of the extended pair
+		s = strings.ReplaceAll(s, "str*", "str:?*")
+		s = strings.ReplaceAll(s, "str:?*", "str*")
+		return s
+	}
+	wantOrder := []int64{0x1, 0x2, 0x4, 0x8, 0x80000000}
+	fns := []struct {
+		name string
+		fn   *ssa.Function
+	}{
+		{"marshalFileStat", p.Func("marshalFileStat")},
+		{"unmarshalFileStat", p.Func("unmarshalFileStat")},
+		{"sshfx.Attributes.MarshalInto", p.FuncIn(p.Sshfx, "(*Attributes).MarshalInto")},
+		{"sshfx.Attributes.XXX_UnmarshalByFlags", p.FuncIn(p.Sshfx, "(*Attributes).XXX_UnmarshalByFlags")},
+	}
+	if sftpOnly {
+		fns = fns[:2]
+	}
+	for _, f := range fns {
+		if f.fn == nil {
+			c.missing(rule, f.name)
+			continue
+		}
+		c.looked(f.name)
+		lad, order := extract(f.fn)
+		for k, w := range want {
+			got := norm(lad[k])
+			okL := got == w
+			if k == 0x80000000 {
+				// count then pairs of strings in a loop; names of the pair differ between the codecs
+				parts := strings.Fields(got)
+				okL = len(parts) >= 3 && strings.HasPrefix(parts[0], "u32") && strings.HasPrefix(parts[1], "str") && strings.HasSuffix(parts[1], "*") && strings.HasPrefix(parts[2], "str") && strings.HasSuffix(parts[2], "*")
+			}
+			c.check(okL, rule, fmt.Sprintf("%s flag %#x", f.name, k), p.Pos(f.fn.Pos()), got, fmt.Sprintf("under attribute flag %#x %s handles [%s], the draft says [%s]", k, f.name, got, w))
+			c.check(!guarded[k], rule, fmt.Sprintf("%s flag %#x decides alone", f.name, k), p.Pos(f.fn.Pos()), "the block is present exactly when the flag is set", fmt.Sprintf("in %s the block for attribute flag %#x is subject to a further condition after the flag test: the flag can be set on the wire without its block", f.name, k))
+		}
+		okOrder := len(order) == len(wantOrder)
+		for i := range order {
+			if i < len(wantOrder) && order[i] != wantOrder[i] {
+				okOrder = false
+			}
+		}
+		c.check(okOrder, rule, f.name+" flag order", p.Pos(f.fn.Pos()), "SIZE, UIDGID, PERMISSIONS, ACMODTIME, EXTENDED", fmt.Sprintf("%s handles the attribute flags in the order %#x", f.name, order))
+	}
+	if sftpOnly {
+		return
+	}
+	// flag constants equal in both packages
+	for _, pr := range [][2]string{{"sshFileXferAttrSize", "AttrSize"}, {"sshFileXferAttrUIDGID", "AttrUIDGID"}, {"sshFileXferAttrPermissions", "AttrPermissions"}, {"sshFileXferAttrACmodTime", "AttrACModTime"}, {"sshFileXferAttrExtended", "AttrExtended"}} {
+		a, _ := p.Sftp.Pkg.Scope().Lookup(pr[0]).(*types.Const)
+		b, _ := p.Sshfx.Pkg.Scope().Lookup(pr[1]).(*types.Const)
+		same := a != nil && b != nil && constant.Compare(constant.ToInt(a.Val()), token.EQL, constant.ToInt(b.Val()))
+		c.check(same, rule, "flag constant "+pr[0], "attrs.go", "equal in both codecs", pr[0]+" and sshfx."+pr[1]+" differ")
+	}
+	// Attributes.Len agrees with MarshalInto on sizes
+	if ln := p.FuncIn(p.Sshfx, "(*Attributes).Len"); ln != nil {
+		sizes := map[int64]int64{}
+		for _, b := range ln.Blocks {
+			iff, ok := b.Instrs[len(b.Instrs)-1].(*ssa.If)
+			if !ok {
+				continue
+			}
+			cmp, ok := iff.Cond.(*ssa.BinOp)
+			if !ok {
+				continue
+			}
+			and, ok := cmp.X.(*ssa.BinOp)
+			if !ok || and.Op != token.AND {
+				continue
+			}
+			k, ok := constInt(and.Y)
+			if !ok {
+				continue
+			}
+			for _, in := range b.Succs[0].Instrs {
+				if bo, ok := in.(*ssa.BinOp); ok && bo.Op == token.ADD {
+					if v, ok := constInt(bo.Y); ok {
+						sizes[k&0xFFFFFFFF] = v
+					}
+				}
+			}
+		}
+		wantSz := map[int64]int64{1: 8, 2: 8, 4: 4, 8: 8, 0x80000000: 4}
+		for k, w := range wantSz {
+			c.check(sizes[k] == w, rule, fmt.Sprintf("Attributes.Len flag %#x", k), p.Pos(ln.Pos()), fmt.Sprintf("%d bytes", sizes[k]), fmt.Sprintf("Attributes.Len counts %d bytes for flag %#x, the encoding uses %d", sizes[k], k, w))
 		}
 	}
 }
